@@ -54,7 +54,7 @@ class KaniUnit:
                 cmd += ["--harness", h["name"]]
             j = jobs or self.spec.get("jobs", 8)
             cmd += ["-j", str(j), "--output-format=terse"]
-            to = self.spec.get("timeout", 900) * (3 if tier == "thorough" else 1)
+            to = int(os.environ.get("VERIF_KANI_TIMEOUT", self.spec.get("timeout", 600))) * (3 if tier == "thorough" else 1)
             rc, so, se, wall = core.run(cmd, cwd=dst, timeout=to)
             if rc == -9:
                 raise Undecided("kani timeout on unit %s after %ds" % (self.name, to))
@@ -81,16 +81,32 @@ class KaniResult:
         self.unit, self.hs, self.so, self.se, self.wall, self.cmd, self.rc = unit, hs, so, se, wall, cmd, rc
         self.status = {}   # harness -> dict(result, failed_checks, time, playback, cover)
         text = so
-        # split per harness
-        blocks = re.split(r"(?m)^(?:Thread \d+: )?Checking harness ", text)
-        for b in blocks[1:]:
-            name = b.split("...")[0].strip()
+        # parallel mode: "Thread N: Checking harness X..." then later "Thread N: \nVERIFICATION RESULT..." blocks;
+        # serial mode: "Checking harness X..." followed directly by its result
+        chunks = []  # (harness, blocktext)
+        cur = {}
+        pieces = re.split(r"(?m)^(Thread \d+: )", text)
+        if len(pieces) > 1:
+            i = 1
+            while i < len(pieces):
+                th, body = pieces[i], pieces[i + 1]
+                m = re.match(r"Checking harness (\S+?)\.\.\.", body)
+                if m:
+                    cur[th] = m.group(1)
+                elif th in cur:
+                    chunks.append((cur[th], body))
+                i += 2
+        else:
+            blocks = re.split(r"(?m)^Checking harness ", text)
+            for b in blocks[1:]:
+                chunks.append((b.split("...")[0].strip(), b))
+        for name, b in chunks:
+            b = b.split("Manual Harness Summary")[0]
             short = name.split("::")[-1]
             st = dict(result="UNKNOWN", failed=[], time=None, playback=None, cover_ok=None, raw=b[-6000:])
             m = re.search(r"VERIFICATION:- (SUCCESSFUL|FAILED)", b)
             if m:
                 st["result"] = m.group(1)
-            fm = re.search(r"Failed Checks:(.*?)(?:\n\n|\nVERIFICATION|\Z)", b, re.S)
             st["failed"] = re.findall(r"Failed Checks: (.*)", b)
             tm = re.search(r"Verification Time: ([0-9.]+)s", b)
             if tm:
